@@ -196,6 +196,27 @@ def run(project: Project, rep, tier: str):
         else:
             rep.refuted("PE-INF", fi, fi.node, "keep_inf=True with a value: infinite entries are not replaced by it",
                         construct=f"{PE}: inf substitution")
+    # keep_inf=False with a value supplied: the flag decides — the value must play no part (same result as without it)
+    I0, r0 = _run(project, {P_DGMS: dgm_input("X"), P_KEEP: Sc(sym.FALSE), P_VAL: NoneV(), P_NORM: Sc(sym.FALSE)}, finite=())
+    I1, r1 = _run(project, {P_DGMS: dgm_input("X"), P_KEEP: Sc(sym.FALSE), P_VAL: Sc(sym.Sym("val_inf")), P_NORM: Sc(sym.FALSE)},
+                  finite=())
+    e0, e1 = _elems(r0), _elems(r1)
+    if e0 is None or e1 is None or unmodelled_in(e0[0]) or unmodelled_in(e1[0]):
+        rep.unmodelled("PE-INF", fi, fi.node, "keep_inf=False with a value supplied: result not modelled")
+    elif any(x[0] == "sym" and x[1] == "val_inf" for x in sym.walk(e1[0])):
+        rep.refuted("PE-INF", fi, fi.node, "keep_inf=False with a val_inf supplied: the result depends on val_inf — infinite bars are "
+                                           "replaced although the caller asked for them to be dropped",
+                    construct=f"{PE}: val_inf used although keep_inf is False")
+    else:
+        a0, a1 = symeval.canon_rows(e0[0]), symeval.canon_rows(e1[0])
+        ok, w = (True, None) if a0 == a1 else symeval.equivalent(a0, a1, trials=12)
+        if ok is True:
+            rep.discharged("PE-INF", fi, fi.node, "keep_inf=False: a supplied val_inf plays no part (same value as without it)")
+        elif ok is False:
+            rep.refuted("PE-INF", fi, fi.node, f"keep_inf=False: supplying val_inf changes the result; witness {w}",
+                        construct=f"{PE}: val_inf used although keep_inf is False")
+        else:
+            rep.unmodelled("PE-INF", fi, fi.node, f"cannot compare the results with and without val_inf ({w})")
     I, r = _run(project, {P_DGMS: dgm_input("X"), P_KEEP: Sc(sym.TRUE), P_VAL: NoneV(), P_NORM: Sc(sym.FALSE)}, finite=())
     rets = [ev for ev in I.log if ev["kind"] == "return" and ev["fi"] is fi]
     raises = [ev for ev in I.log if ev["kind"] == "raise" and ev["fi"] is fi]
